@@ -71,7 +71,7 @@ theorem url_shape :
 `str.isspace` code point, every C0 / C1 control -/
 def hostBad : List Nat :=
   [35, 37, 47, 58, 63, 64, 91, 93] ++ List.range 33 ++ (List.range 33).map (· + 127) ++
-    [5760, 8192, 8193, 8194, 8195, 8196, 8197, 8198, 8199, 8200, 8201, 8202, 8232, 8233, 8239, 8287, 12288]
+    [160, 5760, 8192, 8193, 8194, 8195, 8196, 8197, 8198, 8199, 8200, 8201, 8202, 8232, 8233, 8239, 8287, 12288]
 
 /-- **table obligation**: what the proof needs of the classes -/
 theorem class_facts :
@@ -105,7 +105,9 @@ holds no dot, no host can be empty, `SPECIAL_HOSTS_RE` ends with `$` -/
 theorem label_facts :
     allCls CharClass.lowerClosed labelRe = true ∧ allCls (fun C => C.avoids [46]) labelRe = true ∧
     cT.lowerClosed = true ∧ nullable hostRe = false ∧
-    (spine SPECIAL_HOSTS_RE).getLast? = some .eos := by decide
+    (spine SPECIAL_HOSTS_RE).getLast? = some .eos ∧
+    -- `\S` holds no tab, line feed or carriage return (what `urlsplit` removes)
+    cNonSpace.avoids [9, 10, 13] = true := by decide
 
 /-! ## `HTTP_PROTOCOL_RE` -/
 
